@@ -192,6 +192,8 @@ def r2_evaluators(ctx):
                         tag = getattr(sol, "tag", repr(sol))
                         interp.mstate["calls"] = interp.mstate.get("calls", ()) + (tag,)
                         return Sym("f(%s)" % tag)
+                    if k == "rayon_core::current_num_threads" or k.endswith("::current_num_threads"):
+                        return 4          # a representative pool size (the verdict must not depend on it)
                     # rayon: the parallel visit of all elements is modelled as the sequential one
                     if nm and nm.startswith("par_") and nm not in ("par_iter_mut", "par_iter") and "rayon" in k:
                         f2 = dict(f)
